@@ -42,7 +42,7 @@ def parseOptNat (s : String) : Option (Option Nat) :=
 def parseList (s : String) : Option (List Nat) :=
   if s == "-" then some [] else (s.splitOn ",").mapM String.toNat?
 
-def flagChars : List Char := "SRAGVCHPQrsdatmp".toList
+def flagChars : List Char := "SRAGVCHPQrsdatmpTX".toList
 
 def parseBlk (kind flags mf idur ito cdur sdur sto ons : String) : Option Blk := do
   let k ← parseKind kind
@@ -55,7 +55,7 @@ def parseBlk (kind flags mf idur ito cdur sdur sto ons : String) : Option Blk :=
          fInitRegular := fl.contains 'G', fInitFromValue := fl.contains 'V', fCalc := fl.contains 'C'
          fHandler := fl.contains 'H', fStop := fl.contains 'P', fStopAsync := fl.contains 'Q'
          mainFailAt := mf
-         persistent := fl.contains 'p' || fl.contains 'r', restored := fl.contains 'r', selfInit := fl.contains 's', hasInitdef := fl.contains 'd'
+         persistent := fl.contains 'p' || fl.contains 'r', restored := fl.contains 'r', savedTimed := fl.contains 'T', fRestoreCalc := fl.contains 'X', selfInit := fl.contains 's', hasInitdef := fl.contains 'd'
          hasInitAsync := fl.contains 'a', stopData := fl.contains 't', armed := fl.contains 'm'
          initDur := ← idur.toNat?, initTimeout := ← ito.toNat?, cancelDur := ← cdur.toNat?
          stopDur := ← sdur.toNat?, stopTimeout := ← sto.toNat?, onSuccess := ons }
